@@ -1161,6 +1161,15 @@ where
         // SAFETY: We hold the lock for the shard containing the value.
         let metadata = unsafe { &mut *value.lru.metadata.get() };
 
+        #[cfg(feature = "verif")]
+        {
+            let changed = metadata.id.generation() > input.generation();
+            crate::verif::obs(|| crate::verif::Obs::InternedDependencyChecked {
+                key: self.database_key_index(input),
+                changed,
+            });
+        }
+
         // The slot was reused.
         if metadata.id.generation() > input.generation() {
             return VerifyResult::changed();
